@@ -67,6 +67,7 @@ type Tape struct {
 	AutoExtend bool         // index mode: draws beyond the script take index 0 (explorer)
 	MaxDraws   int          // > 0: the (MaxDraws+1)-th announced draw is cut (reads fail)
 	RejectAt   map[int]bool // draw ordinals (1-based) at which a word observed to be rejected is delivered first
+	RejectRun  int          // how many rejected words in a row are delivered there (0 = one)
 	Chunk      []int        // bytes per Read, cycled; nil = as many as requested
 	FaultAt    int          // 1-based ordinal of the Read call that fails; 0 = none
 	FaultBytes int          // bytes delivered by the failing read
@@ -157,8 +158,14 @@ func (t *Tape) OnDraw(n uint32) {
 	t.buf = t.buf[:0]
 	if t.RejectAt != nil && t.RejectAt[t.Draws] {
 		if w, ok := RejectedWordFor(n); ok {
-			t.buf = binary.BigEndian.AppendUint32(t.buf, w)
-			t.Rejected++
+			run := t.RejectRun
+			if run < 1 {
+				run = 1
+			}
+			for k := 0; k < run; k++ {
+				t.buf = binary.BigEndian.AppendUint32(t.buf, w)
+				t.Rejected++
+			}
 		}
 	}
 	t.buf = binary.BigEndian.AppendUint32(t.buf, WordFor(n, idx))
